@@ -57,8 +57,19 @@ Print Assumptions C13_connect.
 (** The callback handler stops after reporting a missing user-name claim, and
     the state lifetime is two minutes (regenerated from the source). *)
 Theorem C13_source_facts :
-  OIDC_EMPTY_USERNAME_RETURNS = true /\ oidc_CacheExpiration_SECONDS = 120%N.
-Proof. split; reflexivity. Qed.
+  OIDC_EMPTY_USERNAME_RETURNS = true /\ oidc_CacheExpiration_SECONDS = 120%N /\
+  (* the state store is created with that duration as the lifetime of its entries *)
+  hd [] OIDC_STATE_CACHE_ARGS =
+    [x43; x61; x63; x68; x65; x45; x78; x70; x69; x72; x61; x74; x69; x6f; x6e] (* CacheExpiration *) /\
+  (* the name of the session's user is read from these claims and no others *)
+  OIDC_USERNAME_CLAIMS =
+    [[x70; x72; x65; x66; x65; x72; x72; x65; x64; x5f; x75; x73; x65; x72; x6e; x61; x6d; x65];   (* preferred_username *)
+     [x75; x6e; x69; x71; x75; x65; x5f; x6e; x61; x6d; x65];                                       (* unique_name *)
+     [x75; x70; x6e];                                                                               (* upn *)
+     [x75; x73; x65; x72; x6e; x61; x6d; x65]] /\                                                   (* username *)
+  (* the ID-token verifier is configured with the client id only: no clock override, no skipped check *)
+  OIDC_VERIFIER_CONFIG_FIELDS = [[x43; x6c; x69; x65; x6e; x74; x49; x44]].                        (* ClientID *)
+Proof. repeat split; reflexivity. Qed.
 Print Assumptions C13_source_facts.
 
 Definition ok_env (u : bytes) : cbenv :=
